@@ -333,6 +333,29 @@ pub fn c08_block(b: usize, sink: &mut Sink, judge: &Judge) {
                 sink.count("deep_queue_histories");
             }
         }
+        if b == n_seq {
+            // chunk sizes above the largest of the usual set, filled by equal blocks (the way
+            // io::copy or a BufWriter fills them): power-of-two blocks land exactly on every
+            // power-of-two fill level of the chunk, odd ones straddle them
+            for chunk in [131_072usize, 196_608, 262_144, 1 << 20, 100_000] {
+                for block in [4096u32, 8192, 16_384, 65_536, 1000, 65_537] {
+                    for variant in 0..3u32 {
+                        let mut ops = Vec::new();
+                        let n = (5 * chunk as u32 / 2) / block + 2;
+                        for k in 0..n {
+                            ops.push(if variant == 2 && k % 2 == 1 { Op::WriteAll(block) } else { Op::Write(block) });
+                            if variant == 1 && k % 16 == 15 {
+                                ops.extend([Op::Flush, Op::PollOnce]);
+                            }
+                        }
+                        ops.extend([Op::Write(1), Op::Flush, Op::PollAll]);
+                        let case = StreamCase::raw(chunk, ops);
+                        exec(&case, sink, judge);
+                        sink.count("large_chunk_block_histories");
+                    }
+                }
+            }
+        }
         for (chunk, pairs, size) in STALLS {
             let mut case = StreamCase::raw(chunk, stalled_reader_ops(pairs, size));
             case.fresh_wakers = pairs % 3 == 0;
@@ -377,7 +400,7 @@ impl Prop for C08 {
         "exploration"
     }
     fn rule(&self, ctx: &Ctx) -> String {
-        format!("identity-coded streaming bodies. Alphabet per chunk size c: write(0,1,c-1,c,c+1,2c,3c), write_all(1,c+1,3c), write_vectored([c-1,2,c+1]), write_vectored([0,1,3c]), write!(two string arguments of 2 and 300 bytes), write!(4 arguments of c, 1, 260, 3 bytes), flush, poll-once, poll-until-pending; every sequence ends with drop + drain + 2 extra polls. Exhaustive: all sequences of length 1..={} for c in {{1,2,3,4,7}}, both request representations alternating; random: sequences of 10..200 ops for c in {{1,2,3,4,7,4096,65536}}; backlog histories: 1-40 MiB queued unread, then small writes + flush + drain; a quarter of the streams is preceded on the same thread by another stream that is aborted, disconnected or abandoned. Payload byte k is a position hash. Non-trivial = distinct sequence that accepted >= 1 byte and whose frames, write counts, flush availability and clean end were compared with the sequential model",
+        format!("identity-coded streaming bodies. Alphabet per chunk size c: write(0,1,c-1,c,c+1,2c,3c), write_all(1,c+1,3c), write_vectored([c-1,2,c+1]), write_vectored([0,1,3c]), write!(two string arguments of 2 and 300 bytes), write!(4 arguments of c, 1, 260, 3 bytes), flush, poll-once, poll-until-pending; every sequence ends with drop + drain + 2 extra polls. Exhaustive: all sequences of length 1..={} for c in {{1,2,3,4,7}}, both request representations alternating; random: sequences of 10..200 ops for c in {{1,2,3,4,7,4096,65536}}; backlog histories: 1-40 MiB queued unread, then small writes + flush + drain; large-chunk histories: chunk sizes {{131072, 196608, 262144, 1 MiB, 100000}} filled by equal blocks of {{4096, 8192, 16384, 65536, 1000, 65537}} bytes (write / write_all, with and without intermediate flushes) to 2.5 chunks; a quarter of the streams is preceded on the same thread by another stream that is aborted, disconnected or abandoned. Payload byte k is a position hash. Non-trivial = distinct sequence that accepted >= 1 byte and whose frames, write counts, flush availability and clean end were compared with the sequential model",
             if thorough(ctx) { 5 } else { 4 })
     }
     fn n_blocks(&self, ctx: &Ctx) -> usize {
